@@ -430,7 +430,7 @@ def _compute_cost(rc: RuleCtx):
                 syms |= x.symbols()
         if not syms <= {"points.y", "points.x", "n"}:
             good = False
-            res.violation("U1", mod, fi.name, e.node, f"the cached total sum of squares depends on {sorted(syms)}, not on points only", _short(v),
+            res.violation("U1", mod, fi.name, e.node, f"the value cached under {k.val!r} depends on {sorted(syms)}, not on points only: a shared cache returns it for a different breakpoint set", _short(v),
                           "a function of points", construct="tss cache closure")
         notin = g_not(G("atom", ("in", vkey(k), vkey(env["cache"]))))
         if not g_implies(e.guard, notin):
